@@ -9,7 +9,10 @@ from . import common
 from . import joinmodel as J
 
 HOW = "inner"
-RULE = ("every pair of key columns over {None, 1, 2} with 0-3 rows per side (1600 pairs) x key given by name / by vector, plus sampled tables "
+from . import recompute
+
+RULE = ("[plus the shared recompute-after-history monitor: this property's operations evaluated on long-lived objects between in-place writes / renames must equal the same operations on fresh objects rebuilt from the current contents] "
+	"every pair of key columns over {None, 1, 2} with 0-3 rows per side (1600 pairs) x key given by name / by vector, plus sampled tables "
 	"with 1-3 key columns over int/str/bool/date/None (and ints colliding modulo 2**61-1), duplicates on both sides, composite keys agreeing on a "
 	"proper subset, 0-3 payload columns, keys by name / own column vector / external vector, plus multi-step histories (join, edit a key or "
 	"payload cell in place through a column view / table item / attribute assignment, join again) are run through the real join and compared "
@@ -23,7 +26,7 @@ ASSUMPTIONS = [
 ]
 EXHAUSTIVE = {"flag": True, "scope": "all key columns over {None,1,2} with 0..3 rows on each side, by name and by vector"}
 ANCHOR_FUNCS = ["table:Table.inner_join", "table:Table._validate_join_keys"]
-REQUIRED_STRATA = {"exhaustive": 3000, "sampled": 300, "history": 100}
+REQUIRED_STRATA = {"recompute": 200, "exhaustive": 3000, "sampled": 300, "history": 100}
 
 
 def tables_from(spec):
@@ -124,6 +127,7 @@ def gen_history(rng, how=None):
 
 
 RUNNERS = {"join": run_join, "exhaustive": run_exhaustive, "history": run_history}
+RUNNERS["recompute"] = recompute.runner("C09")
 
 
 def key_seqs(maxlen=3, dom=(None, 1, 2)):
@@ -150,4 +154,5 @@ def run_family(chk, how, nsample, nhist):
 
 
 def run(chk):
+	recompute.add_cases(chk, "C09")
 	run_family(chk, HOW, 500 if chk.quick() else 2500, 150 if chk.quick() else 800)
